@@ -11,6 +11,7 @@ import Knee.Model.Hull
 import Knee.Model.GlobalCost
 import Knee.Model.ClusterFilter
 import Knee.Model.EvenPoints
+import Knee.Model.ZMethod
 /-
 Correspondence driver.  `lake env lean --run Driver.lean` (or the compiled `driver` exe).
 Harness → driver : `CALL <fn> <arg> <arg> …`
@@ -340,6 +341,17 @@ def dispatch (out inp : IO.FS.Stream) (fn : String) (args : List String) : M Str
     match v with
     | [xl, yl, xr, yr, dx, dy, tx, ty] => pure ((if wideQ xl yl xr yr dx dy tx ty then "1" else "0") ++ " " ++ toString (nptsQ xl xr dx tx))
     | _ => throw "args"
+  | "zknees", [xs, ys, zs, w, h, ymin, thr] =>
+    let xs ← orErr (parseList? parseRat? xs) "xs"
+    let ys ← orErr (parseList? parseRat? ys) "ys"
+    let zs ← orErr (parseList? parseRat? zs) "zs"
+    let w ← orErr (parseRat? w) "w"
+    let h ← orErr (parseRat? h) "h"
+    let ymin ← orErr (parseRat? ymin) "ymin"
+    let thr ← orErr (parseList? parseRat? thr) "thr"
+    match zKnees xs ys zs w h ymin (fun k => thr[k]?.getD (thr.getLast?.getD 0)) thr.length with
+    | some ks => pure (showNats ks)
+    | none => pure "none"
   | _, _ => throw s!"unknown call {fn}/{args.length}"
 
 partial def loop (out inp : IO.FS.Stream) : IO Unit := do
